@@ -403,3 +403,12 @@ _EXTRA17 = {
 }
 for _k, _v in _EXTRA17.items():
     PROPS[_k]['text'] = PROPS[_k]['text'].rstrip() + _v
+
+_EXTRA18 = {
+ 'C04': ' The direct fill is bounded by the image on every path (C04-R23 = C19-R14).',
+ 'C06': ' Subtract and inverse recompute the extents after the band merger (C06-R17).',
+ 'C18': ' The filter generator keeps no state between calls (C18-R14).',
+ 'C20': ' The finaliser looks at the alpha map on every path (C20-R11).',
+}
+for _k, _v in _EXTRA18.items():
+    PROPS[_k]['text'] = PROPS[_k]['text'].rstrip() + _v
